@@ -101,12 +101,24 @@ def extract():
     muts = re.findall(r"\bmutable\s+([^;]+);", gn)
     cfg["gnat_query_no_shared_scratch"] = all(m.strip().startswith("std::atomic<") for m in muts)
     if not cfg["gnat_query_no_shared_scratch"]: notes["gnat_query_no_shared_scratch"] = muts
+    # PRM::solve resets bestCost_ before it starts the solution checking thread; constructRoadmap(ptc) only initialises a NaN
+    prm = strip_comments(read("src/ompl/geometric/planners/prm/src/PRM.cpp"))
+    sv = method_bodies(prm, r"ompl::base::PlannerStatus\s+ompl::geometric::PRM::solve\s*\([^)]*\)\s*\{")
+    cr = method_bodies(prm, r"void\s+ompl::geometric::PRM::constructRoadmap\s*\(\s*const\s+base::PlannerTerminationCondition\s*&\s*ptc\s*\)\s*\{")
+    ok = False
+    if len(sv) == 1 and len(cr) == 1:
+        sb, cb = sv[0][1], cr[0][1]
+        i_reset = sb.find("bestCost_ = opt_->infiniteCost();"); i_thr = sb.find("std::thread slnThread")
+        unguarded = [m.start() for m in re.finditer(r"bestCost_\s*=[^=]", cb) if not re.search(r"if\s*\(\s*std::isnan\(bestCost_\.value\(\)\)\s*\)\s*$", cb[:m.start()])]
+        ok = 0 <= i_reset < i_thr and not unguarded
+        if not ok: notes["prm_bestcost_before_thread"] = "reset before the thread in solve(): %s; unguarded writes in constructRoadmap(ptc): %d" % (0 <= i_reset < i_thr, len(unguarded))
+    cfg["prm_bestcost_before_thread"] = ok
     return cfg, notes
 
 
 def to_coq(cfg):
     b = lambda x: "true" if x else "false"
-    order = ["mv_counters_atomic", "mv_increments_rmw", "ptc_flags_atomic", "ptc_eval_terminate_first", "prrt_atomic_steps", "pdef_solutions_locked", "rng_seeds_locked", "spaces_registry_locked", "console_locked", "gnat_query_no_shared_scratch"]
+    order = ["mv_counters_atomic", "mv_increments_rmw", "ptc_flags_atomic", "ptc_eval_terminate_first", "prrt_atomic_steps", "pdef_solutions_locked", "rng_seeds_locked", "spaces_registry_locked", "console_locked", "gnat_query_no_shared_scratch", "prm_bestcost_before_thread"]
     return ("(* generated by lib/thread_config.py from %s — do not edit *)\nFrom Coq Require Import List Bool.\nFrom OmplV Require Import ThreadModel ThreadProofs.\n"
             "Definition current : config := mkCfg %s.\n"
             "Theorem current_ok : config_ok current = true.\nProof. reflexivity. Qed.\n"
